@@ -109,22 +109,24 @@ func NewExec(prog *ssa.Program, db *SpecDB, fset *token.FileSet) *Exec {
 }
 
 type Frame struct {
-	fn       *ssa.Function
-	regs     map[ssa.Value]*Value
-	params   []*Value
-	bind     []*Value
-	entry    *State
-	rets     []retInfo
-	blockOut map[*ssa.BasicBlock]*State
-	contract *Contract
-	loops    map[*ssa.BasicBlock]*loopInfo
-	order    []*ssa.BasicBlock
-	defers   []*ssa.Defer
-	isRoot   bool
-	depth    int
-	phiOv    map[ssa.Value]*Value
-	iters    map[ssa.Value]*iterInfo
-	named    map[string]*Value // named results at return
+	fn            *ssa.Function
+	regs          map[ssa.Value]*Value
+	params        []*Value
+	condDefer     *ssa.Defer
+	condDeferCell *Cell
+	bind          []*Value
+	entry         *State
+	rets          []retInfo
+	blockOut      map[*ssa.BasicBlock]*State
+	contract      *Contract
+	loops         map[*ssa.BasicBlock]*loopInfo
+	order         []*ssa.BasicBlock
+	defers        []*ssa.Defer
+	isRoot        bool
+	depth         int
+	phiOv         map[ssa.Value]*Value
+	iters         map[ssa.Value]*iterInfo
+	named         map[string]*Value // named results at return
 }
 
 type retInfo struct {
@@ -1217,6 +1219,9 @@ func (x *Exec) attribute(fr *Frame, kind, label string) []string {
 
 // safetyKinds: obligation kinds that say "this operation cannot panic".
 var safetyKinds = map[string]bool{"nil": true, "index": true, "slice": true, "nilmap": true, "nilfunc": true, "assert": true, "panic": true, "div": true, "call.pre": true, "conv": true, "makeslice": true, "overflow": true}
+
+// lockKinds: lock-discipline obligations (monitors).
+var lockKinds = map[string]bool{"lock": true, "monitor": true}
 
 // propsFor: a contract's property list may qualify an entry as "Cxx:safety" - only the
 // no-panic obligations of the function count towards that property.
